@@ -59,27 +59,34 @@ def rule_reset_coverage(ctx, cfg, r):
                 r.ok(f.name, "reset:" + short(fld_), "must-written by %s" % pol)
             else:
                 r.fail(f.name, "reset:" + short(fld_), "state field %s may be written by inflate() but is not restored by %s::reset" % (short(fld_), pol))
-    # InflateState::reset / reset_as reach the policy
+    # InflateState::reset(fmt) has the effect of FullReset(fmt) on every path (decided on the inlined effects, whatever the forwarding shape)
     g = c.fn("inflate::stream::InflateState::reset")
-    h = c.fn("inflate::stream::InflateState::reset_as")
-    ev = paths.Evaluator(c)
-    ok1 = False
-    for x in ev.run(g):
+    ev = paths.Evaluator(c, inline=("*",), inline_depth=7)
+    want = {f[1] for f in own if f[1] != "decomp"} | {"data_format"}
+    rows = ev.run(g)
+    bad = []
+    for x in rows:
+        if x.outcome[0] != "return":
+            continue
+        got = {}
+        init = False
         for e in x.effects:
-            if e[0] == "call" and e[1].endswith("InflateState::reset_as") and e[2][0] == ("ref", ("deref", P(1)), True) and \
-                    e[2][1][0] == "agg" and e[2][1][1].endswith("FullReset") and e[2][1][4] == (P(2),):
-                ok1 = True
-    ok2 = False
-    ev = paths.Evaluator(c)
-    for x in ev.run(h):
-        for e in x.effects:
-            if e[0] == "call" and e[1].endswith("ResetPolicy::reset") and e[2][0] == ("ref", ("local", 0, 2), False) and \
-                    e[2][1] == ("ref", ("deref", P(1)), True):
-                ok2 = True
-    if ok1 and ok2:
-        r.ok(g.name, "reset-forwards", "InflateState::reset(fmt) = reset_as(FullReset(fmt)) = FullReset(fmt).reset(self)")
+            if e[0] == "store" and e[1][0] == "fld" and e[1][1] == ("deref", P(1)) and e[1][3].endswith("InflateState"):
+                got[e[1][2]] = e[2]
+            if e[0] in ("call", "enter") and e[1].endswith("DecompressorOxide::init"):
+                init = True
+        miss = sorted(want - set(got))
+        if miss:
+            bad.append("fields not restored: %s" % miss)
+        elif got.get("data_format") != P(2):
+            bad.append("data_format is set to %s, not the requested format" % tstr(got.get("data_format")))
+        elif not init:
+            bad.append("embedded decoder not re-initialised")
+    nret = sum(1 for x in rows if x.outcome[0] == "return")
+    if not bad and nret:
+        r.ok(g.name, "reset-forwards", "InflateState::reset(fmt) restores every stream field, re-initialises the decoder and stores fmt on all %d paths" % nret)
     else:
-        r.fail(g.name, "reset-forwards", "InflateState::reset does not apply FullReset with the requested format (reset→reset_as: %s, reset_as→policy: %s)" % (ok1, ok2))
+        r.fail(g.name, "reset-forwards", "InflateState::reset does not apply FullReset with the requested format (%s)" % ("; ".join(bad) or "no returning path"))
 
 
 def rule_determinism(ctx, cfg, r):
